@@ -108,6 +108,7 @@ func (dc *dataChunk) flush(w *DataStreamWriter, gc bool) (flushed uint32, err er
 		logger.Fatalf("write data fail, stop! err: %v", err)
 		return 0, err
 	}
+	verifPoint("flush:written-not-detached")
 
 	dc.Lock()
 	tofree := dc.wbuf[:n]
@@ -206,8 +207,10 @@ func (dc *dataChunk) endGCWriting() (err error) {
 		dc.gcWriter = nil
 	}
 	if dc.rewriting && dc.writingHead < dc.size {
+		verifPoint("gc:before-truncate")
 		dc.Truncate(dc.writingHead)
 		dc.size = dc.writingHead
+		verifPoint("gc:after-truncate")
 	}
 	dc.rewriting = false
 	return
